@@ -114,9 +114,10 @@ class Ctx:
               'assumptions': self.assumptions, 'wall_s': round(time.time() - self.t0, 2), 'violations': len(real),
               'known_findings_hit': [{'rule': v['rule'], 'function': v['function'], 'descriptor': v['descriptor']} for v in kf_hits],
               'notes': self.notes}
-        with open(os.path.join(VERIF, 'evidence', self.pid + '.json'), 'w') as fh:
-            json.dump(ev, fh, indent=1, default=_default)
-            fh.write('\n')
+        if not os.environ.get('COCLS_NO_EVIDENCE'):      # set only by tools/try_mutant.sh (scratch trees must not overwrite evidence)
+            with open(os.path.join(VERIF, 'evidence', self.pid + '.json'), 'w') as fh:
+                json.dump(ev, fh, indent=1, default=_default)
+                fh.write('\n')
         print('%s [%s]: %d rule(s), %d obligation(s), %d discharged, %d path(s), %.1fs' % (self.pid, self.tier, len(self.rules), obligations, discharged, paths, time.time() - self.t0))
         for rid, r in self.rules.items():
             print('  %-34s %-10s sites=%-3d ok=%-3d paths=%d' % (rid, r['kind'], r['sites'], r['discharged'], r['paths']))
@@ -124,7 +125,8 @@ class Ctx:
             print('KNOWN-FINDING: property=%s %s in %s at %s: %s' % (self.pid, v['rule'], v['function'], v['site'], v['message']))
         if broken:
             sys.stderr.write('ANALYSIS-BROKEN property=%s %s\n' % (self.pid, broken))
-            return 2
+            if not real:
+                return 2
         if real:
             rd = os.path.join(VERIF, 'evidence', 'replay')
             os.makedirs(rd, exist_ok=True)
